@@ -205,9 +205,49 @@ fn random_steps(t: &mut Tape, len: usize) -> Vec<Step> {
         .collect()
 }
 
+/// A CONNECT with several thousand body bytes whose protocol name / level is this family's, the other family's, an
+/// invalid pair or not UTF-8, complete or cut off somewhere after the level byte: the verdict on such a stream is
+/// reached long before its end, and must not depend on where the transport pauses.
+fn large_connect<F: Family>(t: &mut Tape) -> Vec<u8> {
+    use crate::model::{Body, Fam, Props, WPacket};
+    let v5 = F::FAM == Fam::V5;
+    let (name, level): (Vec<u8>, u8) = match t.pick(6) {
+        0 | 1 => if v5 { (b"MQTT".to_vec(), 5) } else if t.flag() { (b"MQTT".to_vec(), 4) } else { (b"MQIsdp".to_vec(), 3) },
+        2 => if v5 { (b"MQTT".to_vec(), 4) } else { (b"MQTT".to_vec(), 5) },
+        3 => if v5 { (b"MQIsdp".to_vec(), 3) } else { (b"MQTT".to_vec(), 6) },
+        4 => (b"MQTX".to_vec(), if v5 { 5 } else { 4 }),
+        _ => (vec![b'M', b'Q', 0xFF, b'T'], if v5 { 5 } else { 4 }),
+    };
+    // the tail is laid out for this family whatever the pair says
+    let big = 4_200 + t.pick(6_000);
+    let w = WPacket::new(
+        F::FAM,
+        0x10,
+        Body::Connect {
+            name,
+            level,
+            flags: 0x02,
+            keep_alive: 60,
+            props: if v5 { Some(Props::default()) } else { None },
+            client_id: vec![b'c'; big],
+            will: None,
+            username: None,
+            password: None,
+        },
+    );
+    let mut b = serialize(&w).unwrap_or_default();
+    if t.flag() && b.len() > 40 {
+        let keep = 3 + t.pick(b.len() - 3);
+        b.truncate(keep);
+    }
+    b
+}
+
 fn case_random<F: Family>(input: &Input, ctx: &mut Ctx) -> CaseResult {
     let mut t = Tape::new(input.tape());
-    let (data, origin): (Vec<u8>, &str) = if ctx.thorough && t.chance(1, 512) {
+    let (data, origin): (Vec<u8>, &str) = if t.chance(1, 10) {
+        (large_connect::<F>(&mut t), "large-connect")
+    } else if ctx.thorough && t.chance(1, 512) {
         // a packet whose header uses four length bytes
         let p = c01::sized_publish::<F>(2_097_152 + t.pick(4096));
         (F::encode(&p).map(|b| b.as_ref().to_vec()).unwrap_or_default(), "valid-4-byte-header")
@@ -457,6 +497,7 @@ pub fn run(env: &mut Env) -> RunResult {
         env.require(s, "transport-fills-by-initialize-and-advance");
         env.require(s, "resumed-from-cloned-state");
         env.require(s, "resumed-after-transient-transport-failure");
+        env.require(s, "origin:large-connect");
         for l in ["dropped-at-pending", "pending-inside-var-int", "header-width:2", "header-width:3", "stream:accepted", "stream:rejected-or-incomplete"] {
             env.require(s, l);
         }
